@@ -392,6 +392,57 @@ def make_image_pt(tag, width):
     return img
 
 
+BADVAL = (1 << 30) - 1        # a stored value that is no integer (nan, inf, fraction) or is out of range
+
+
+def check_pats(pats, nsym):
+    """the frame patterns of the wide-range network (inputs of the case; LineBatcher_Trace!SpFrameOK reads them from the trace)"""
+    assert len(pats) >= 2 and nsym + 1 <= 16
+    for p in pats:
+        assert len(p["ds"]) <= nsym and all(isinstance(d, int) and d >= 1 for d in p["ds"]) and p["fl"] >= 1
+        assert abs(p["off"]) + max(p["ds"] + [p["fl"]]) < (1 << 23)       # exact in float32
+
+
+def _pt_network_wide(nsym, pats):
+    """as _pt_network (same arg-max class per frame), but the frames have the dynamic range of a real network: the frame whose
+    arg-max class is cls emits  off - D  with D = 0 for cls, ds[j] for class (cls + j) % C, fl for every other class; the pattern
+    [off, ds, fl] is pattern 0 for frames that see padding only, else 1 + ((last own column - 1) // 4 + image tag) % (len(pats) - 1)"""
+    check_pats(pats, nsym)
+    c = nsym + 1
+    dist = torch.zeros(len(pats), c)
+    for k, p in enumerate(pats):
+        dist[k] = torch.tensor([0] + list(p["ds"]) + [p["fl"]] * (c - 1 - len(p["ds"])), dtype=torch.float32)
+    offs = torch.tensor([float(p["off"]) for p in pats])
+
+    class PtNetWide(torch.nn.Module):
+        def __init__(self, nsym: int, npat: int, dist, offs):
+            super().__init__()
+            self.nsym = nsym
+            self.npat = npat
+            self.dist = dist
+            self.offs = offs
+
+        def forward(self, x):                                    # N x 3 x H x W, values 0..1; images of make_image_pt
+            v = torch.round(x[:, :, 0, :] * 255.0).long()
+            tag = v[:, 0] + 256 * torch.round(x[:, 0, 1, :] * 255.0).long()
+            col = v[:, 1] + 256 * v[:, 2]                        # own column number (>= 1), 0 = padding
+            n = tag.shape[0]
+            f = tag.shape[1] // 4
+            tag = tag[:, :4 * f].reshape(n, f, 4).max(dim=2)[0]
+            col = col[:, :4 * f].reshape(n, f, 4).max(dim=2)[0]
+            blk = torch.div(torch.clamp(col - 1, min=0), 8, rounding_mode="floor")
+            lab = (tag * 577 + blk * 37) % self.nsym
+            cls = torch.where(col == 0, torch.full_like(lab, self.nsym), lab)
+            c = self.nsym + 1
+            g4 = torch.div(torch.clamp(col - 1, min=0), 4, rounding_mode="floor")
+            k = torch.where(col == 0, torch.zeros_like(lab), 1 + (g4 + tag) % (self.npat - 1))
+            j = (torch.arange(c)[None, None, :] - cls[:, :, None]) % c
+            logits = self.offs[k][:, :, None] - torch.gather(self.dist[k], 2, j)
+            return logits.permute(0, 2, 1)                       # N x C x T
+
+    return PtNetWide(nsym, len(pats), dist, offs)
+
+
 def _pt_network(nsym):
     class PtNet(torch.nn.Module):
         """frame f is a function of the pixel columns 4f .. 4f+3 of its own row (bounded horizontal neighbourhood): blank (last
@@ -424,7 +475,7 @@ def _pt_engine(wd, k, spec):
     """the real PytorchEngineLineOCR, built by its public constructor from a json definition + an exported (TorchScript) model"""
     from pero_ocr.ocr_engine.pytorch_ocr_engine import PytorchEngineLineOCR
     ck = os.path.join(wd, "pt_%d.pt" % k)
-    model = torch.jit.script(_pt_network(spec["nsym"]))
+    model = torch.jit.script(_pt_network_wide(spec["nsym"], spec["pats"]) if spec.get("pats") else _pt_network(spec["nsym"]))
     model.save(ck)
     model.save(ck + ".cpu")        # the engine loads "<checkpoint>.cpu" on a cpu device
     js = os.path.join(wd, "pt_%d.json" % k)
@@ -434,10 +485,19 @@ def _pt_engine(wd, k, spec):
     return PytorchEngineLineOCR(js, torch.device("cpu"), batch_size=spec["bs"])
 
 
-def project_pt(text, lg, coords):
+def _stored(arr):
+    """stored values (integer logits of the wide-range network, 0 = not stored) -> integers; BADVAL for anything else"""
+    with np.errstate(invalid="ignore"):
+        r = np.rint(arr)
+        ok = np.isfinite(arr) & (r == arr) & (np.abs(arr) < BADVAL)
+    return np.where(ok, np.where(ok, r, 0), BADVAL).astype(np.int64)
+
+
+def project_pt(text, lg, coords, wide=False):
     """one (transcription, logits, logit_coords) triple of a "pt" engine -> integers: the characters as ABASE-relative codes, the
-    window, and the arg-max class of every returned frame inside the window"""
-    res = {"cs": 0, "lo": 0, "hi": 0, "lk": 0, "frames": 0, "tlen": 0, "txt": [], "a0": 0, "amax": []}
+    window, and the arg-max class of every returned frame inside the window; wide: also the stored value of every class at
+    every returned frame inside the window (sp)"""
+    res = {"cs": 0, "lo": 0, "hi": 0, "lk": 0, "frames": 0, "tlen": 0, "txt": [], "a0": 0, "amax": [], "sp": []}
     if isinstance(text, str):
         res["tlen"] = len(text)
         res["txt"] = [(ord(ch) - ABASE) if ABASE + ASTRIDE <= ord(ch) < ABASE + 8 * ASTRIDE else BADSYM for ch in text]
@@ -462,6 +522,8 @@ def project_pt(text, lg, coords):
             a, b = 0, arr.shape[0]
         res["a0"] = a
         res["amax"] = [int(v) for v in arr[a:b].argmax(axis=1)] if b > a and arr.shape[1] > 0 else []
+        if wide and res["amax"]:
+            res["sp"] = [[int(v) for v in row] for row in _stored(arr[a:b])]
     elif arr is not None:
         res["lk"] = 2
     return res
@@ -485,14 +547,14 @@ def _pt_call(eng, images, spec, call, w):
     mode = call["mode"]
     kw = dict(sparse_logits=bool(mode["sparse"]), tight_crop_logits=bool(mode["tight"]), no_logits=bool(mode["nolog"]))
     tr = {"kind": "pt", "w": list(w), "bs": spec["bs"], "mode": dict(mode), "outcome": "ok", "batches": [], "res": [], "alias": [],
-          "alpha": spec["alpha"], "nsym": spec["nsym"]}
+          "alpha": spec["alpha"], "nsym": spec["nsym"], "wide": int(bool(spec.get("pats"))), "pats": list(spec.get("pats") or [])}
     try:
-        with contextlib.redirect_stdout(io.StringIO()):
+        with contextlib.redirect_stdout(io.StringIO()), np.errstate(all="ignore"):
             texts, logits, coords = eng.process_lines(images, **kw)
         if not (len(texts) == len(logits) == len(coords) == len(w)):
             tr["outcome"] = "length"
         else:
-            tr["res"] = [project_pt(t, l, c) for t, l, c in zip(texts, logits, coords)]
+            tr["res"] = [project_pt(t, l, c, wide=bool(tr["wide"])) for t, l, c in zip(texts, logits, coords)]
     except CaseTimeout:
         tr["outcome"] = "timeout"
     except Exception as ex:          # part of the observation
@@ -546,7 +608,8 @@ def run_session(sess):
                 tr = _pt_call(eng, images, spec, call, w)
             except CaseTimeout:
                 tr = {"kind": "pt", "w": list(w), "bs": spec["bs"], "mode": dict(call["mode"]), "outcome": "timeout", "batches": [],
-                      "res": [], "alias": [], "alpha": spec["alpha"], "nsym": spec["nsym"]}
+                      "res": [], "alias": [], "alpha": spec["alpha"], "nsym": spec["nsym"], "wide": int(bool(spec.get("pats"))),
+                      "pats": list(spec.get("pats") or [])}
             finally:
                 signal.alarm(0)
                 signal.signal(signal.SIGALRM, old)
